@@ -485,6 +485,9 @@ func (n *c03Node) start() error {
 	ctx, cancel := context.WithCancel(context.Background())
 	n.ctx, n.cancel = ctx, cancel
 	log := slog.New(slog.NewTextHandler(io.Discard, nil))
+	if os.Getenv("VERIF_LOG") != "" {
+		log = slog.New(slog.NewTextHandler(os.Stderr, &slog.HandlerOptions{Level: slog.LevelInfo})).With("node", n.idx)
+	}
 	wd, wctx := gwatchdog.NewNopWatchdog(ctx, log)
 	n.wd = wd
 	n.timer.reset()
@@ -1021,8 +1024,7 @@ func c03FinHeights(f []c03Fin) []uint64 {
 type c03Step struct {
 	Op string          `json:"op"` // deliver | timeout | restart
 	N  int             `json:"n"`
-	M  *c03Msg         `json:"m,omitempty"`
-	T  string          `json:"t,omitempty"`
+	Ms []*c03Msg       `json:"ms,omitempty"` // deliver: the batch, handed over one message at a time in this order
 	E  json.RawMessage `json:"exp,omitempty"` // expected per-node observation (array of 3) after the step
 }
 
@@ -1048,7 +1050,9 @@ func c03Diff(exp, got c03Obs) []string {
 	chk("chain", exp.Chain, got.Chain)
 	chk("sm", []any{exp.SH, exp.SR}, []any{got.SH, got.SR})
 	chk("fin", exp.Fin, got.Fin)
-	chk("timer", exp.Timer, got.Timer)
+	if exp.Timer != "*" {
+		chk("timer", exp.Timer, got.Timer)
+	}
 	chk("lock", []any{exp.LockV, exp.LockR}, []any{got.LockV, got.LockR})
 	chk("acts", exp.Acts, got.Acts)
 	return d
@@ -1115,19 +1119,34 @@ func (r *c03Runner) replay(b c03Behaviour) {
 		okStep := true
 		switch st.Op {
 		case "deliver":
-			rec["m"] = st.M.js()
-			var m *c03Msg
-			var ok bool
-			if st.M.S == c03Byz {
-				m, ok = c.inject(st.M.K, st.M.H, st.M.R, st.M.V)
-			} else {
-				m, ok = c.find(st.M.K, st.M.H, st.M.R, st.M.V, st.M.S)
+			var msl []vc.M
+			var ress []string
+			for _, sm := range st.Ms {
+				msl = append(msl, sm.js())
+				var m *c03Msg
+				var ok bool
+				if sm.S == c03Byz {
+					m, ok = c.inject(sm.K, sm.H, sm.R, sm.V)
+				} else {
+					m, ok = c.find(sm.K, sm.H, sm.R, sm.V, sm.S)
+					for try := 0; !ok && try < 15; try++ {
+						// the sender's gossip may not have emitted it yet
+						time.Sleep(10 * time.Millisecond)
+						c03Settle(r.settle)
+						m, ok = c.find(sm.K, sm.H, sm.R, sm.V, sm.S)
+					}
+				}
+				if !ok {
+					okStep = false
+					break
+				}
+				ress = append(ress, c.deliver(st.N, m))
+				if !c03Settle(r.settle) {
+					status = "unsettled"
+					break
+				}
 			}
-			if !ok {
-				okStep = false
-				break
-			}
-			rec["res"] = c.deliver(st.N, m)
+			rec["ms"], rec["res"] = msl, ress
 		case "timeout":
 			if _, ok := c.timeout(st.N); !ok {
 				okStep = false
@@ -1153,7 +1172,7 @@ func (r *c03Runner) replay(b c03Behaviour) {
 		}
 		sched = append(sched, rec)
 		done++
-		if !c03Settle(r.settle) {
+		if status == "unsettled" || !c03Settle(r.settle) {
 			status = "unsettled"
 			break
 		}
